@@ -840,6 +840,8 @@ def pos_over_same(x, pos, fam, depth=0, hd=0):
     pos_n = FL.peel(pos)
     if F.is_call(pos_n, *LEN_CALLS) and FL.same_place(pos_n["args"][0], x):
         return "bound is len() of the same sequence"
+    if int_lit(pos_n) == 0:
+        return "0 (<= any len)"
     if pos_n.get("k") == "Binary" and pos_n["op"] == "Add" and int_lit(pos_n["r"]) == 1 and depth < 3:
         inner = pos_over_same(x, pos_n["l"], fam, depth + 1)
         if inner and "str::find" in inner and "one-byte" not in inner:
@@ -909,6 +911,25 @@ def pos_over_same(x, pos, fam, depth=0, hd=0):
             clo = recv["args"][1]
             recv = FL.peel(recv["args"][0])
         dflt = pos_over_same(x, pos_n["args"][1], fam, depth + 1)
+        # the length of the first piece a std splitting iterator cuts out of x: a sub-slice of x is at most as long as x
+        if dflt and is_map_or and F.is_call(recv, "std::iter::Iterator::next") and len(recv["args"]) == 1:
+            it_ = FL.peel(recv["args"][0])
+            if F.is_call(it_, "core::slice::<impl [T]>::split_inclusive", "core::slice::<impl [T]>::split", "core::slice::<impl [T]>::splitn",
+                         "core::str::<impl str>::split_inclusive", "core::str::<impl str>::split", "core::str::<impl str>::lines") \
+                    and FL.same_place(FL.peel(it_["args"][0]), FL.peel(x)) and not (reassigned(x, fam) and F.strip(x).get("k") in ("Var", "Upvar")):
+                cn = F.strip(clo)
+                is_len = False
+                if cn.get("k") == "Zst" and "fn" in cn and cn["fn"]["path"].endswith(("<impl [T]>::len", "<impl str>::len")):
+                    is_len = True
+                cb = next((m for m in fam.members[1:] if cn.get("k") == "Closure" and m["path"] == cn.get("def")), None)
+                if cb is not None:
+                    ps = [p_["pat"] for p_ in cb["params"] if p_.get("pat")]
+                    body = FL.peel(cb["body"])
+                    if len(ps) == 1 and ps[0].get("k") == "Bind" and F.is_call(body, *LEN_CALLS) and FL.peel(body["args"][0]).get("k") in ("Var", "Upvar") \
+                            and FL.peel(body["args"][0])["id"] == ps[0]["id"]:
+                        is_len = True
+                if is_len:
+                    return "length of the first piece split off this sequence (a sub-slice), or %s" % dflt
         if dflt and F.is_call(recv, *POSITION_CALLS) and iter_source(recv["args"][0]) is not None \
                 and FL.same_place(iter_source(recv["args"][0]), x) and not (reassigned(x, fam) and F.strip(x).get("k") in ("Var", "Upvar")):
             if clo is None:
